@@ -111,6 +111,7 @@ func cmdCheck(args []string) int {
 		seed, _ = strconv.ParseInt(s, 10, 64)
 	}
 	debug.SetGCPercent(400)
+	debug.SetMemoryLimit(6 << 30) // soft limit: the collector works harder instead of letting garbage of large tables pile up
 
 	start := time.Now()
 	shards := chk.Shards(*tier)
